@@ -253,6 +253,7 @@ def c07_cases(tier, seed):
                    meta={"gen": "first-wins", "expect_content": ["Q 1 - x72", "A 1 0 - x61 " + spec.hexs("ONE"), "X 2 " + spec.hexs("ONE")]}))
     cs.append(Case("<!DOCTYPE r [<!ENTITY % x 'PE'><!ENTITY x 'GE'>]><r>&x;</r>", "nc", True,
                    meta={"gen": "pe-not-ge", "expect_content": ["Q 1 - x72", "X 2 " + spec.hexs("GE")]}))
+    cs += gens.g_ent_nested_elems(flags="nc")
     # several top-level references in ONE text run / ONE attribute value, each within the documented budget of
     # 255 nested references, together beyond it: the budget is per top-level reference, so this equals the inline text
     for n, k in ((128, 2), (200, 2), (255, 2), (100, 3), (10, 30), (3, 100)):
@@ -870,9 +871,19 @@ def c01_extra(tier, seed, harness_rel, harness_dbg):
 
 
 def c10_extra(tier, seed, harness_rel, harness_dbg):
-    """API totality on scale families: deep / wide documents, Debug printing at depth 10^4"""
+    """API totality on scale families: deep / wide documents, Debug printing at depth 10^4; and the whole battery
+    under the DEBUG build (overflow checks, debug assertions) on small documents"""
     q = tier == "quick"
     fails, info = [], []
+    if harness_dbg:
+        small = [c for c in c10_cases(tier, seed) if len(c.data) <= 160][: (600 if q else 6000)]
+        work = os.path.join(BUILD, "work-C10")
+        res = rxlib.run_sharded(harness_dbg, ["dump"], small, work, "dbg")
+        bad = [(i, res[i][0]) for i in range(len(small)) if rxlib.result_class(res[i]) not in ("ok", "err")]
+        info.append({"family": "api-battery-debug-build", "cases": len(small), "failures": len(bad)})
+        for i, head in bad[:3]:
+            fails.append({"why": "the read-API battery does not return normally under the debug build (overflow / debug assertion): " + head,
+                          "family": "api-battery-debug-build", "input": small[i].data.decode("utf-8", "replace")[:300], "input_hex": small[i].data.hex(), "flags": small[i].flags})
     d = 20000 if q else 100000
     fams = [("deep-%d-api" % d, b"<a>" * d + b"</a>" * d, "nat"),
             ("wide-%d-api" % d, b"<r>" + b"<a/>" * d + b"</r>", "nat"),
@@ -1022,7 +1033,7 @@ defprop("C09", "proof", {"R", "E", "X", "A"}, c09_cases, oracle=oracles.o_entiti
 defprop("C10", "proof", None, c10_cases, oracle=oracles.o_total, extra=c10_extra,
         rule="every battery (links, axes, iterators with all F/B words <= 4 and nth/len scripts, lookups, identity, text_pos_at for offsets 0..len+2, Debug/Display into a sink) on enumerated and random documents",
         technique="Coq model of the read API (panic sites explicit) + correspondence + isolated scale runs")
-defprop("C11", "proof", {"R", "N", "AX", "AE", "AH", "AT", "AR", "D"}, lambda t, s: api_docs(t, s, "ncad"), oracle=oracles.o_navigation,
+defprop("C11", "proof", {"R", "N", "AX", "AE", "AH", "AT", "AR", "D"}, lambda t, s: api_docs(t, s, "ncad"), oracle=all_oracles(oracles.o_wf_tree, oracles.o_navigation),
         rule="every node of enumerated token-string documents, random documents and fixtures x every axis, element variant, text/tail, and every F/B word <= 4 plus nth/len scripts on the four double-ended iterators",
         technique="Coq proof that the iterator state machines implement the deque specification + correspondence")
 defprop("C12", "proof", {"R", "L", "LQ"}, lambda t, s: api_docs(t, s, "ncl"), oracle=oracles.o_lookups,
@@ -1116,7 +1127,7 @@ def run_property(pid, tier, seed):
             proof_problems.append("extraction / driver build failed: %s" % str(e)[-800:])
         model_ok = os.path.exists(DRIVER) and rc == 0
         harness = rxlib.build_harness("release")
-        if pid in ("C01",):
+        if pid in ("C01", "C10"):
             harness_dbg = rxlib.build_harness("debug")
     t_build = time.time() - t0
 
